@@ -21,13 +21,17 @@ struct Sched {
   double alpha;
   bool acc_work;
   std::vector<double> lsched;
+  bool periodic = false;  // the variable is a periodic distanceZ (period 4, values in [-2,2)): the moving centre crosses the boundary
 };
+static const double PERIOD = 4.0;
+static double img(double d, bool periodic) { return periodic ? d - PERIOD * std::floor(d / PERIOD + 0.5) : d; }
 
 static const double WIDTH = 0.5, C0 = 1.0, C1 = 3.0, K0 = 2.0, K1 = 6.0;
 
 static std::string conf_of(Sched const &s)
 {
   std::string c = "colvar {\n name d\n width 0.5\n distance {\n group1 { atomNumbers 1 }\n group2 { atomNumbers 2 }\n }\n}\n";
+  if (s.periodic) c = "colvar {\n name d\n width 0.5\n distanceZ {\n period 4.0\n axis (1, 0, 0)\n main { atomNumbers 2 }\n ref { atomNumbers 1 }\n }\n}\n";
   std::string b = (s.kind == W_KCONT || s.kind == W_KASYM) ? "harmonicWalls {\n name r\n colvars d\n lowerWalls 1.8\n upperWalls 2.4\n" : "harmonic {\n name r\n colvars d\n centers 1.0\n";
   if (s.kind == W_KASYM) b += " lowerWallConstant 1.0\n upperWallConstant 4.0\n";
   else b += " forceConstant 2.0\n";
@@ -158,6 +162,7 @@ int main(int argc, char **argv)
   std::vector<Sched> menu = {
       {"centers-continuous", C_CONT, 4, 0, 0, 1.0, true, {}},
       {"centers-staged", C_STAGED, 2, 2, 0, 1.0, false, {}},
+      {"centers-continuous-across-the-periodic-boundary", C_CONT, 4, 0, 0, 1.0, true, {}, true},
       {"k-continuous", K_CONT, 4, 0, 0, 1.0, true, {}},
       {"k-continuous-exp2", K_CONT, 5, 0, 0, 2.0, true, {}},
       {"k-staged", K_STAGED, 2, 2, 0, 1.0, false, {}},
@@ -214,7 +219,7 @@ int main(int argc, char **argv)
             switch (sc.kind) {
             case C_CONT: {
               double c = C0 + lam * (C1 - C0);
-              if (!close_rel(q.center, c, 3.0, 1e-13)) r.violation("C06:schedule:centers-continuous-closed-form", det + ",\"center\":" + num(q.center) + ",\"expected\":" + num(c) + "}");
+              if (!close_rel(img(q.center - c, sc.periodic), 0.0, 3.0, 1e-13)) r.violation("C06:schedule:centers-continuous-closed-form", det + ",\"center\":" + num(q.center) + ",\"expected\":" + num(c) + "}");
               break;
             }
             case K_CONT: case W_KCONT: case W_KASYM: {
@@ -252,7 +257,7 @@ int main(int argc, char **argv)
             if (sc.kind == W_KCONT || sc.kind == W_KASYM) {
               double d = q.x < 1.8 ? q.x - 1.8 : (q.x > 2.4 ? q.x - 2.4 : 0.0);
               e = 0.5 * q.k * wall_scale(sc.kind, q.x > 2.4) * d * d / (WIDTH * WIDTH);
-            } else e = 0.5 * q.k * (q.x - q.center) * (q.x - q.center) / (WIDTH * WIDTH);
+            } else { double dx = img(q.x - q.center, sc.periodic); e = 0.5 * q.k * dx * dx / (WIDTH * WIDTH); }
             if (!close_rel(q.E, e, std::max(1.0, e), 1e-12))
               r.violation("C06:energy:moving-restraint-closed-form", base + ",\"step\":" + std::to_string(s) + ",\"energy\":" + num(q.E) + ",\"expected\":" + num(e) + "}");
           }
@@ -263,10 +268,10 @@ int main(int argc, char **argv)
             for (int s = 1; s < L; s++) {
               Rec const &q = ref.last[s], &p = ref.last[s - 1];
               if (sc.kind == C_CONT) {
-                double dc = q.center - p.center;
-                WA += q.k * (q.center - q.x) / (WIDTH * WIDTH) * dc;
-                WB += q.k * (p.center - q.x) / (WIDTH * WIDTH) * dc;
-                WC += q.k * (0.5 * (p.center + q.center) - q.x) / (WIDTH * WIDTH) * dc;
+                double dc = img(q.center - p.center, sc.periodic);
+                WA += q.k * img(q.center - q.x, sc.periodic) / (WIDTH * WIDTH) * dc;
+                WB += q.k * img(p.center - q.x, sc.periodic) / (WIDTH * WIDTH) * dc;
+                WC += q.k * img(p.center + 0.5 * dc - q.x, sc.periodic) / (WIDTH * WIDTH) * dc;
               } else {
                 double dk = q.k - p.k, dudk;
                 if (sc.kind == W_KCONT || sc.kind == W_KASYM) {
